@@ -390,8 +390,15 @@ def tolerance_games(rnd, n):
 
 def random_games(rnd, n):
     kind = rnd.choice(["sa", "sa", "sa-broken", "sam", "sam-broken", "convex", "convex-broken", "additive", "neg-additive",
-                       "random", "random", "v0"] + (["matching", "matching-one-split", "matching-one-split"] if n >= 4 else []))
+                       "random", "random", "v0", "v0-small-among-huge"] + (["matching", "matching-one-split", "matching-one-split"] if n >= 4 else []))
     N = 2 ** n
+    if kind == "v0-small-among-huge":
+        # a superadditive (or cost: negated, for is_sam) game of magnitude 2^40 whose EMPTY coalition has a small non-zero value: the only
+        # split that rejects a positive v(∅) outright is S = T = ∅ (2·v(∅) ≤ v(∅)); in every other split v(∅) drowns in the tolerance
+        base = G.sa_game(n, rnd, "int", neg_singletons=False) if rnd.random() < 0.6 else G.sam_game(n, rnd)
+        v = [x * 2 ** 40 for x in base]
+        v[0] = Fraction(rnd.choice([1, 1, Fraction(1, 2), 3, -1]))
+        return kind, v
     if kind.startswith("matching"):
         # matching games (value = best total of disjoint weighted pairs inside the coalition): superadditive, and every
         # constraint that binds is a split into two parts of >= 2 players.  `one-split`: the value of ONE coalition U of >= 4
